@@ -101,11 +101,19 @@ pub async fn handle_notify_get_or_head(
     // Subscribe before looking at the current version so that we cannot
     // miss a notification sent between the check and the subscription.
     let mut receiver = notify.subscribe();
+    #[cfg(routinator_verif)]
+    tokio::task::block_in_place(|| {
+        crate::verif::preempt("notify-after-subscribe")
+    });
 
     let wait = match need_wait(&req, history) {
         Ok(wait) => wait,
         Err(resp) => return Ok(resp),
     };
+    #[cfg(routinator_verif)]
+    tokio::task::block_in_place(|| {
+        crate::verif::preempt("notify-after-check")
+    });
 
     if wait {
         receiver.recv().await;
